@@ -266,6 +266,12 @@ def run(ctx):
     if not traces:
         raise MachineryError("no symbolic TTNO exported for TLC")
     B = 1500
+    # binding demonstration: a copy of a recorded tree operator judged against input terms with one changed coefficient must be rejected
+    import copy
+    bad = copy.deepcopy(next((t for t in traces if t["terms"]), traces[0]))
+    bad["id"] = "corrupted/copy/none"
+    bad["terms"][0][1] = bad["terms"][0][1] + 1
+    traces = list(traces) + [bad]
     for k in range(0, len(traces), B):
         batch = traces[k:k + B]
         with tempfile.NamedTemporaryFile("w", suffix=".json", delete=False) as fh:
@@ -281,13 +287,18 @@ def run(ctx):
             raise MachineryError("SymbolicTtnoTrace verdict count mismatch")
         byid = {t["id"]: t for t in batch}
         for v in rt["verdicts"]:
+            if v["id"] == "corrupted/copy/none":
+                if v["wellformed"] and v["denotes"]:
+                    raise MachineryError("binding demonstration failed: SymbolicTtnoTrace accepted a recorded operator against changed input terms")
+                ctx.notes["binding_demonstration"] = "corrupted copy (one input coefficient + 1) rejected by SymbolicTtnoTrace"
+                continue
             ctx.traces(1)
             if not (v["wellformed"] and v["denotes"]):
                 algo = v["id"].split("/")[2]
                 cls = "root-factor-dropped" if (v["wellformed"] and not v["rootfactor_is_one"]) else "general"
                 ctx.violation(f"C02:trace-denotation:{algo}:{cls}", f"TLC: the symbolic tree operator recorded from the real construction does not denote the input terms ({v})", byid[v["id"]])
     ctx.sample({"tree_from_TLC": trees_[len(trees_) // 2]})
-    ctx.sample({"recorded_construction_judged_by_TLC": traces[len(traces) // 2]})
+    ctx.sample({"recorded_construction_judged_by_TLC": traces[(len(traces) - 1) // 2]})
     ctx.cov["rule"] = ("every rooted ordered tree with 2..4 (thorough 5) nodes x every assignment of 1-2 basis sets / dummy nodes with 2..5 physical basis sets (TLC), each with a "
                        "one-row table carrying a prefactor and random term tables enumerated by TLC, 6 model families, integer and scaled real factors, three algorithms; "
                        "plus every tree constructor for 2..12 basis sets; distinct = (tree, grouping, table, family, pass, algorithm)")
